@@ -127,6 +127,189 @@ theorem fista_status_only_if (P : Problem α) (pr : Params α) (stop : Nat → B
   exact ⟨C06.notFinite_only_if _ _ _ _ _ _ _ _, fun hh => ⟨tick, C06.interrupted_only_if _ _ _ _ _ _ _ _ hh⟩,
     C06.maxTime_only_if _ _ _ _ _ _ _ _, C06.never_exception _ _ _ _ _ _ _ _⟩
 
+/-! ### The no-progress counter: what it is
+
+FISTA updates `no_progress` at *every loop head* (also the final one) with the generated statement
+`noProgressUpdate` on the flag `curr->x̂ == prev_x̂`: the proximal point of this iteration against the
+proximal point of the previous one (for `k = 0`: against the content of `curr->x̂` before the first step,
+which is `x₀`, or the finite-difference work vector `x₀ − h` when the Lipschitz constant is estimated).
+All these vectors are observable: `x̂ₖ` is reported by callback `k`.  So the counter handed to
+`check_all_stop_conditions` at the deciding check is `npRun` (`Props/C06`) of the flags
+`[x̂₀ == x̂₋₁, x̂₁ == x̂₀, …, x̂ₖ == x̂ₖ₋₁]` of the callbacks of the solve. -/
+
+/-- flags `x̂ⱼ == x̂ⱼ₋₁` along the callbacks (oldest first), `xinit = x̂₋₁` -/
+def xhatFlags (xinit : Vec α) : List (Callback α) → List Bool
+  | [] => []
+  | cb :: rest => (cb.it.xhat == xinit) :: xhatFlags cb.it.xhat rest
+
+/-- `x̂` of the newest callback (list newest first), `xinit` if there is none -/
+def lastXhat (xinit : Vec α) : List (Callback α) → Vec α
+  | [] => xinit
+  | cb :: _ => cb.it.xhat
+
+/-- the same flags for a newest-first list -/
+def flagsNF (xinit : Vec α) : List (Callback α) → List Bool
+  | [] => []
+  | cb :: rest => flagsNF xinit rest ++ [cb.it.xhat == lastXhat xinit rest]
+
+theorem xhatFlags_snoc (xinit : Vec α) (l : List (Callback α)) (cb : Callback α) :
+    xhatFlags xinit (l ++ [cb]) = xhatFlags xinit l ++ [cb.it.xhat == lastXhat xinit l.reverse] := by
+  induction l generalizing xinit with
+  | nil => simp [xhatFlags, lastXhat]
+  | cons x xs ih =>
+    simp only [List.cons_append, xhatFlags, ih, List.reverse_cons]
+    congr 2
+    cases hr : xs.reverse with
+    | nil => simp [lastXhat]
+    | cons z zs => simp [lastXhat]
+
+theorem xhatFlags_reverse (xinit : Vec α) (cbs : List (Callback α)) :
+    xhatFlags xinit cbs.reverse = flagsNF xinit cbs := by
+  induction cbs with
+  | nil => rfl
+  | cons cb rest ih =>
+    rw [List.reverse_cons, xhatFlags_snoc, List.reverse_reverse, ih]
+    rfl
+
+theorem flagsNF_length (xinit : Vec α) (cbs : List (Callback α)) :
+    (flagsNF xinit cbs).length = cbs.length := by
+  induction cbs with
+  | nil => rfl
+  | cons cb rest ih => simp [flagsNF, ih]
+
+/-- invariant at the top of a pass of the loop body -/
+def NpInv (xinit : Vec α) (pr : Params α) (s : St α) : Prop :=
+  s.noProgress = C06.npRun pr.maxNoProgress 0 0 (flagsNF xinit s.cbs) ∧
+  s.curr.xhat = lastXhat xinit s.cbs ∧ s.cbs.length = s.k
+
+theorem flagsNF_cons (xinit : Vec α) (cb : Callback α) (rest : List (Callback α)) :
+    flagsNF xinit (cb :: rest) = flagsNF xinit rest ++ [cb.it.xhat == lastXhat xinit rest] := rfl
+
+theorem advance_np (P : Problem α) (pr : Params α) (s : St α) (eps : α) :
+    (advance P pr s eps).noProgress = s.noProgress ∧ (advance P pr s eps).curr.xhat = s.curr.xhat ∧
+    (∃ cb : Callback α, (advance P pr s eps).cbs = cb :: s.cbs ∧ cb.it = s.curr) ∧
+    (advance P pr s eps).k = s.k + 1 := by
+  unfold advance
+  cases hf : fixedLip pr <;> simp [evalPsiGradPsi, evalGradPsi]
+
+theorem exitBlock_cbs (P : Problem α) (pr : Params α) (s : St α) (eps : α) (status : SolverStatus)
+    (x0 y Sig errz0 : Vec α) :
+    ∃ cb : Callback α, (exitBlock P pr s eps status x0 y Sig errz0).callbacks = (cb :: s.cbs).reverse ∧
+      cb.it = s.curr := ⟨_, rfl, rfl⟩
+
+theorem mainLoop_np (P : Problem α) (pr : Params α) (stop : Nat → Bool) (oot : Bool)
+    (x0 y Sig errz0 : Vec α) (xinit : Vec α) (fuel : Nat) (s : St α) (h : NpInv xinit pr s)
+    (hk : s.k ≤ pr.maxIter) (hfuel : pr.maxIter + 1 ≤ fuel + s.k) :
+    ∃ tick : Nat,
+      (mainLoop P pr stop oot x0 y Sig errz0 fuel s).stats.status =
+        statusChain pr.tolerance pr.maxIter pr.maxNoProgress
+          (mainLoop P pr stop oot x0 y Sig errz0 fuel s).stats.iterations
+          (mainLoop P pr stop oot x0 y Sig errz0 fuel s).stats.eps
+          (C06.npRun pr.maxNoProgress 0 0
+            (xhatFlags xinit (mainLoop P pr stop oot x0 y Sig errz0 fuel s).callbacks)) oot (stop tick) ∧
+      (xhatFlags xinit (mainLoop P pr stop oot x0 y Sig errz0 fuel s).callbacks).length =
+        (mainLoop P pr stop oot x0 y Sig errz0 fuel s).stats.iterations + 1 := by
+  induction fuel generalizing s with
+  | zero => omega
+  | succ f ih =>
+    unfold mainLoop
+    simp only []
+    have hpk := proxStage_k P pr stop s
+    have hprev : (proxStage P pr stop s).prev = s.curr.xhat := by unfold proxStage; rfl
+    have hpnp : (proxStage P pr stop s).noProgress = s.noProgress := by unfold proxStage; rfl
+    have hhc := headStep_curr P pr stop oot (proxStage P pr stop s)
+    have hnp : (headStep P pr stop oot (proxStage P pr stop s)).1.noProgress =
+        C06.npRun pr.maxNoProgress 0 0 (flagsNF xinit s.cbs ++
+          [(proxStage P pr stop s).curr.xhat == lastXhat xinit s.cbs]) := by
+      unfold headStep
+      simp only []
+      rw [C06.npRun_append_single, Nat.zero_add, flagsNF_length, h.2.2, ← h.1, hprev, hpnp, hpk.1, h.2.1]
+    split_ifs with hb
+    · obtain ⟨cb, hcb, hit⟩ := exitBlock_cbs P pr (headStep P pr stop oot (proxStage P pr stop s)).1
+        (headStep P pr stop oot (proxStage P pr stop s)).2.1
+        (headStep P pr stop oot (proxStage P pr stop s)).2.2 x0 y Sig errz0
+      have hfl : xhatFlags xinit (exitBlock P pr (headStep P pr stop oot (proxStage P pr stop s)).1
+          (headStep P pr stop oot (proxStage P pr stop s)).2.1
+          (headStep P pr stop oot (proxStage P pr stop s)).2.2 x0 y Sig errz0).callbacks =
+          flagsNF xinit s.cbs ++ [(proxStage P pr stop s).curr.xhat == lastXhat xinit s.cbs] := by
+        rw [hcb, xhatFlags_reverse, flagsNF_cons, hit, hhc.1, hhc.2.2.1, hpk.2.1]
+      have hef := exitBlock_fields P pr (headStep P pr stop oot (proxStage P pr stop s)).1
+        (headStep P pr stop oot (proxStage P pr stop s)).2.1
+        (headStep P pr stop oot (proxStage P pr stop s)).2.2 x0 y Sig errz0
+      refine ⟨(headStep P pr stop oot (proxStage P pr stop s)).1.tick, ?_, ?_⟩
+      · rw [hfl, ← hnp, hef.2.1, hef.2.2.1, hef.2.2.2.1]
+        unfold headStep statusOf
+        simp only []
+      · rw [hfl, hef.2.2.1, List.length_append, flagsNF_length, h.2.2, hhc.2.1, hpk.1]
+        rfl
+    · have hbusy : (headStep P pr stop oot (proxStage P pr stop s)).2.2 = .Busy := by simpa using hb
+      have hkne := headStep_busy_k P pr stop oot _ hbusy
+      rw [hpk.1] at hkne
+      obtain ⟨a1, a2, ⟨cb, a3, a3'⟩, a4⟩ := advance_np P pr (headStep P pr stop oot (proxStage P pr stop s)).1
+        (headStep P pr stop oot (proxStage P pr stop s)).2.1
+      apply ih
+      · refine ⟨?_, ?_, ?_⟩
+        · rw [a1, a3, hnp, flagsNF_cons, a3', hhc.1, hhc.2.2.1, hpk.2.1]
+        · rw [a2, a3, hhc.1]; show _ = cb.it.xhat; rw [a3', hhc.1]
+        · rw [a3, a4, List.length_cons, hhc.2.2.1, hpk.2.1, hhc.2.1, hpk.1, h.2.2]
+      · rw [a4, hhc.2.1, hpk.1]; omega
+      · rw [a4, hhc.2.1, hpk.1]; omega
+
+/-- **The no-progress counter of a FISTA solve.**  For a solve that entered the loop: the returned status
+    is the generated chain evaluated with the counter
+    `npRun max_no_progress 0 0 [x̂₀ == x̂₋₁, x̂₁ == x̂₀, …, x̂ₖ == x̂ₖ₋₁]` — the flags between the proximal
+    points reported by *consecutive progress callbacks* (`x̂₋₁` = the content of `curr->x̂` after the
+    initialisation).  Hence, for `max_no_progress ≥ 1`, `NoProgress` is returned only after more than
+    `max_no_progress` consecutive trailing iterations whose reported `x̂` are all equal. -/
+theorem fista_no_progress_counter (P : Problem α) (pr : Params α) (stop : Nat → Bool) (oot : Bool)
+    (x0 y Sig errz0 gV : Vec α) (nan inf : α)
+    (h : EndsAt P pr stop oot x0 y Sig errz0 (run P pr stop oot x0 y Sig errz0 gV nan inf)) :
+    ∃ tick : Nat,
+      (run P pr stop oot x0 y Sig errz0 gV nan inf).stats.status =
+        statusChain pr.tolerance pr.maxIter pr.maxNoProgress
+          (run P pr stop oot x0 y Sig errz0 gV nan inf).stats.iterations
+          (run P pr stop oot x0 y Sig errz0 gV nan inf).stats.eps
+          (C06.npRun pr.maxNoProgress 0 0 (xhatFlags (initIterate P pr x0 gV nan).1.xhat
+            (run P pr stop oot x0 y Sig errz0 gV nan inf).callbacks)) oot (stop tick) ∧
+      (xhatFlags (initIterate P pr x0 gV nan).1.xhat
+        (run P pr stop oot x0 y Sig errz0 gV nan inf).callbacks).length =
+        (run P pr stop oot x0 y Sig errz0 gV nan inf).stats.iterations + 1 ∧
+      (1 ≤ pr.maxNoProgress → (run P pr stop oot x0 y Sig errz0 gV nan inf).stats.status = .NoProgress →
+        pr.maxNoProgress < ((xhatFlags (initIterate P pr x0 gV nan).1.xhat
+          (run P pr stop oot x0 y Sig errz0 gV nan inf).callbacks).reverse.takeWhile (· = true)).length) := by
+  unfold run at h ⊢
+  cases hi : initState P pr x0 gV nan with
+  | inl t =>
+    rw [hi] at h
+    obtain ⟨s, _, _, _, hr⟩ := h
+    simp only [] at hr
+    have : (exitBlock P pr (headStep P pr stop oot (proxStage P pr stop s)).1
+      (headStep P pr stop oot (proxStage P pr stop s)).2.1
+      (headStep P pr stop oot (proxStage P pr stop s)).2.2 x0 y Sig errz0).callbacks ≠ [] := by
+      unfold exitBlock; simp
+    rw [← hr] at this
+    exact absurd rfl this
+  | inr s =>
+    simp only []
+    have hk := initState_k P pr x0 gV nan s hi
+    have hinit : NpInv (initIterate P pr x0 gV nan).1.xhat pr s := by
+      unfold initState at hi
+      simp only [] at hi
+      split_ifs at hi
+      injection hi with hi
+      subst hi
+      exact ⟨by simp [flagsNF, C06.npRun], rfl, rfl⟩
+    obtain ⟨tick, h1, h2⟩ := mainLoop_np P pr stop oot x0 y Sig errz0 (initIterate P pr x0 gV nan).1.xhat
+      (pr.maxIter + 2) s hinit (by rw [hk.1]; omega) (by omega)
+    refine ⟨tick, h1, h2, ?_⟩
+    intro hM hnp
+    rw [hnp] at h1
+    have hgt := C06.noProgress_only_if _ _ _ _ _ _ _ _ h1.symm
+    have hle := C06.no_progress_counts_consecutive_guarded pr.maxNoProgress hM
+      (xhatFlags (initIterate P pr x0 gV nan).1.xhat
+        (mainLoop P pr stop oot x0 y Sig errz0 (pr.maxIter + 2) s).callbacks) 0
+    omega
+
 /-! ### Non-vacuity (the concrete run of `Props/C03_Fista`) -/
 
 local instance instRealLikeRatC06F : RealLike ℚ := ⟨id, fun _ => false, fun _ => true⟩
@@ -147,6 +330,27 @@ example : (run exP2 { exPr with maxIter := 0, tolerance := 1/1000, alwaysOverwri
     (run exP2 { exPr with maxIter := 0, tolerance := 1/1000, alwaysOverwrite := false }
       (fun _ => false) false [2] [1] [2] [0] [] 0 0).x = [2] := by
   decide +kernel
+
+/-- `fista_no_progress_counter` instantiated: constant prox oracle (`x̂ = ½` always), `max_no_progress = 2`:
+    flags `[x̂₀ == x₀, x̂₁ == x̂₀, …] = [false, true, true, true, true]`; the counter is sampled at `k = 0`
+    (reset), not at `k = 1`, starts at `k = 2` and exceeds 2 at `k = 4`: `NoProgress` with 4 iterations -/
+def exPrNp : Params ℚ := { exPr with maxIter := 10, tolerance := 1/1000, maxNoProgress := 2 }
+
+example : (run exP2 exPrNp (fun _ => false) false [2] [1] [2] [0] [] 0 0).stats.status = .NoProgress ∧
+    (run exP2 exPrNp (fun _ => false) false [2] [1] [2] [0] [] 0 0).stats.iterations = 4 ∧
+    xhatFlags (initIterate exP2 exPrNp [2] [] 0).1.xhat
+      (run exP2 exPrNp (fun _ => false) false [2] [1] [2] [0] [] 0 0).callbacks
+      = [false, true, true, true, true] := by
+  decide +kernel
+
+example : exPrNp.maxNoProgress <
+    ((xhatFlags (initIterate exP2 exPrNp [2] [] 0).1.xhat
+      (run exP2 exPrNp (fun _ => false) false [2] [1] [2] [0] [] 0 0).callbacks).reverse.takeWhile
+        (· = true)).length := by
+  have hE := (fista_run_cases exP2 exPrNp (fun _ => false) false [2] [1] [2] [0] [] 0 0).resolve_left
+    (fun h => absurd h.2.2.2.2.2.2 (by decide +kernel))
+  obtain ⟨_, _, _, h3⟩ := fista_no_progress_counter exP2 exPrNp (fun _ => false) false [2] [1] [2] [0] [] 0 0 hE
+  exact h3 (by decide) (by decide +kernel)
 
 /-- two iterations, then `MaxIter`. -/
 example : (run exP2 { exPr with maxIter := 2, tolerance := 1/1000 }
